@@ -36,7 +36,19 @@ def oracle(sc, out):
         res.append(("overlap", "two %s payloads were between checkpoints at the same time" % out["overlap"][0][0]))
     # heartbeats while thread payloads block
     blocks = [e for e in log if e["kind"] == "start" and role.get(e["pid"]) == "blocker"]
-    if blocks:
+    sd = next((e for e in log if e["kind"] == "shutdown-call"), None)
+    if sc.get("many") and sd is not None:
+        # dozens of thread payloads that block for longer than the scenario lasts: by the end every
+        # coroutine flavour must beat at its usual rate again (creating the threads takes a moment,
+        # waiting for one of them to finish would take forever)
+        for fl in ("aio", "trio"):
+            have = {p["pid"] for p in sc["payloads"] if p["fl"] == fl and p.get("role") == "co"}
+            if not any(e["kind"] == "start" and e["pid"] in have and e["t"] < sd["t"] - 0.5 for e in log):
+                continue
+            beats = [e for e in log if e["kind"] == "step" and e["pid"] in have and sd["t"] - 0.4 <= e["t"] <= sd["t"]]
+            if len(beats) < 3:
+                res.append(("coroutines-stalled:%s" % fl, "only %d %s heartbeats in the last 0.4 s before shutdown while %d thread payloads were blocked" % (len(beats), fl, sc["many"])))
+    elif blocks:
         t0 = blocks[0]["t"]
         for fl in ("aio", "trio"):
             have = [p for p in sc["payloads"] if p["fl"] == fl and p.get("role") == "co"]
